@@ -56,6 +56,11 @@ func child(op string) int {
 		if err := d.SaveEntity(db.NewEntity(os.Getenv("VERIF_CHILD_KEY"), val, val[:len(val)/2])); err != nil {
 			return 4
 		}
+	case "save-controller":
+		// a controller's pairing: a name and a public key, no private part
+		if err := db.NewDatabaseWithStorage(st).SaveEntity(db.NewEntity(os.Getenv("VERIF_CHILD_KEY"), val, nil)); err != nil {
+			return 4
+		}
 	case "delete":
 		st.Delete(os.Getenv("VERIF_CHILD_KEY"))
 	case "delete-entity":
@@ -165,15 +170,19 @@ func explore(c crashCase, scratch string) (points int, leftovers int, err error)
 	d := db.NewDatabaseWithStorage(st)
 	storageKey := c.Key
 	var oldRaw, newRaw []byte
-	if c.Op == "save-entity" || c.Op == "delete-entity" {
+	if c.Op == "save-entity" || c.Op == "delete-entity" || c.Op == "save-controller" {
 		if c.HasOld {
 			d.SaveEntity(db.NewEntity(c.Key, c.Old, c.Old[:len(c.Old)/2]))
 		}
-		ks, _ := st.KeysWithSuffix(".entity")
 		for k, v := range c.Others {
 			d.SaveEntity(db.NewEntity("other-"+k, v, nil))
 		}
-		_ = ks
+		// another controller that happens to carry the very key material the write is about (the same
+		// controller under an older name, a shared key): a write to one name is no business of the other
+		if len(c.New) > 0 {
+			d.SaveEntity(db.NewEntity("same-key-other-name", c.New, nil))
+			d.SaveEntity(db.NewEntity("same-key-and-private-part", c.New, c.New[:len(c.New)/2]))
+		}
 	} else {
 		if c.HasOld {
 			st.Set(c.Key, c.Old)
@@ -213,7 +222,7 @@ func explore(c crashCase, scratch string) (points int, leftovers int, err error)
 			storageKey = k
 		}
 	}
-	if c.Op == "save-entity" {
+	if c.Op == "save-entity" || c.Op == "save-controller" {
 		for _, k := range after {
 			b, _ := st2.Get(k)
 			if !bytes.Equal(b, snap[k]) {
@@ -310,7 +319,7 @@ func judgeAfterCrash(c crashCase, work, storageKey string, hadOld bool, oldRaw, 
 	// interrupted write carried) are read back exactly
 	for _, fk := range []string{"follow-up", storageKey} {
 		short := []byte("s")
-		if fk == storageKey && c.Op == "save-entity" {
+		if fk == storageKey && (c.Op == "save-entity" || c.Op == "save-controller") {
 			short = []byte(`{"Name":"x","PublicKey":"AQ==","PrivateKey":null}`)
 		}
 		if err := fresh.Set(fk, short); err != nil {
@@ -351,7 +360,7 @@ var vlen = rapid.OneOf(rapid.IntRange(0, 3), rapid.IntRange(0, 200), rapid.Sampl
 
 func TestC19Prop(t *testing.T) {
 	rapid.Check(t, func(t *rapid.T) {
-		c := crashCase{Op: rapid.SampledFrom([]string{"set", "set", "set", "save-entity", "save-entity", "delete", "delete-entity"}).Draw(t, "op"), Others: map[string][]byte{}}
+		c := crashCase{Op: rapid.SampledFrom([]string{"set", "set", "set", "save-entity", "save-entity", "save-controller", "delete", "delete-entity"}).Draw(t, "op"), Others: map[string][]byte{}}
 		if c.Op == "set" || c.Op == "delete" {
 			c.Key = rapid.SampledFrom([]string{"uuid", "version", "configHash", "k", "a.entity.bak"}).Draw(t, "key")
 		} else {
@@ -362,7 +371,7 @@ func TestC19Prop(t *testing.T) {
 			c.Old = filler(vlen.Draw(t, "oldlen"), rapid.Uint32().Draw(t, "oldseed"))
 		}
 		c.New = filler(vlen.Draw(t, "newlen"), rapid.Uint32().Draw(t, "newseed"))
-		if c.Op == "save-entity" || c.Op == "delete-entity" {
+		if c.Op == "save-entity" || c.Op == "delete-entity" || c.Op == "save-controller" {
 			if len(c.New) < 2 {
 				c.New = filler(32, 9)
 			}
@@ -409,6 +418,8 @@ func TestC19Regress(t *testing.T) {
 		{Op: "set", Key: "k", HasOld: true, Old: filler(4096, 3), New: filler(10, 4)},
 		{Op: "save-entity", Key: "controller", HasOld: true, Old: filler(32, 5), New: filler(32, 6)},
 		{Op: "delete-entity", Key: "controller", HasOld: true, Old: filler(32, 5), New: filler(32, 6)},
+		{Op: "save-controller", Key: "phone-new", HasOld: false, New: filler(32, 8)},
+		{Op: "save-controller", Key: "phone", HasOld: true, Old: filler(32, 7), New: filler(32, 8)},
 		{Op: "delete", Key: "configHash", HasOld: true, Old: filler(16, 5), New: filler(2, 6), Others: map[string][]byte{"uuid": []byte("x")}},
 	}
 	for i, c := range cases {
